@@ -257,6 +257,11 @@ fn entry(id: &str) -> Option<&'static Entry> { entries().iter().find(|e| e.id ==
 pub struct Claims { sub: String, exp: u64 }
 
 fn jwt() -> JWT<Claims> { JWT::default(JWT_SECRET) }
+fn api_token(req: &ohkami::Request) -> Option<&str> { req.headers.get("X-Api-Token") }
+fn jwt_key() -> JWT<Claims> {
+    let custom = JWT::default(JWT_SECRET).get_token_by(api_token, ohkami::openapi::SecurityScheme::APIKey("apiToken", ohkami::openapi::security::APIKey::header("X-Api-Token")));
+    custom.clone()
+}
 fn basic() -> BasicAuth<String> { BasicAuth { username: BASIC_USER.to_string(), password: BASIC_PASS.to_string() } }
 
 #[derive(Clone)]
@@ -304,10 +309,13 @@ impl<I: FangProc> FangProc for DynProc<I> {
 ------------------------------------------------------------------------------------------------ */
 
 #[derive(Clone, Debug, PartialEq, Eq, Hash, serde::Serialize, serde::Deserialize)]
-pub enum FangD { Tag(String), Jwt, Basic, BasicArr }
+pub enum FangD { Tag(String), Jwt, Basic, BasicArr,
+    /// a JWT fang customised with `get_token_by` (token in `X-Api-Token`, documented as an apiKey scheme) and then *cloned*: the
+    /// clone guards the routes
+    JwtKey }
 impl FangD {
     fn is_auth(&self) -> bool { !matches!(self, FangD::Tag(_)) }
-    fn kind(&self) -> &'static str { match self { FangD::Tag(_) => "tag", FangD::Jwt => "jwt", FangD::Basic | FangD::BasicArr => "basic" } }
+    fn kind(&self) -> &'static str { match self { FangD::Tag(_) => "tag", FangD::Jwt => "jwt", FangD::Basic | FangD::BasicArr => "basic", FangD::JwtKey => "jwt-apikey" } }
 }
 
 #[derive(Clone, Debug, PartialEq, Eq, Hash, serde::Serialize, serde::Deserialize)]
@@ -337,7 +345,7 @@ pub struct AppD {
 fn leak(s: &str) -> &'static str { Box::leak(s.to_string().into_boxed_str()) }
 
 fn dynfang(f: &FangD) -> DynFang {
-    match f { FangD::Tag(t) => DynFang::Tag(leak(t)), FangD::Jwt => DynFang::Jwt(jwt()), FangD::Basic => DynFang::Basic(basic()),
+    match f { FangD::Tag(t) => DynFang::Tag(leak(t)), FangD::Jwt => DynFang::Jwt(jwt()), FangD::JwtKey => DynFang::Jwt(jwt_key()), FangD::Basic => DynFang::Basic(basic()),
         FangD::BasicArr => DynFang::BasicArr([BasicAuth { username: "someone-else".to_string(), password: "pw2".to_string() }, basic()]) }
 }
 
@@ -633,6 +641,11 @@ fn build_from_document(doc: &Value, tpl: &str, method: &str, op: &Value, auth: b
         if let Some(req) = op.get("security").and_then(Value::as_array).and_then(|a| a.first()).and_then(Value::as_object) {
             for name in req.keys() {
                 let scheme = doc.pointer(&format!("/components/securitySchemes/{}", esc_ptr(name))).ok_or_else(|| format!("security scheme `{name}` is not defined"))?;
+                if scheme["type"].as_str() == Some("apiKey") && scheme["in"].as_str() == Some("header") {
+                    let hname = scheme["name"].as_str().ok_or("apiKey scheme without a name")?;
+                    headers.push((hname.to_string(), token.to_string()));
+                    continue
+                }
                 let v = match (scheme["type"].as_str(), scheme["scheme"].as_str()) {
                     (Some("http"), Some("bearer")) => format!("Bearer {token}"),
                     (Some("http"), Some("basic")) => { use base64::Engine; format!("Basic {}", base64::engine::general_purpose::STANDARD.encode(format!("{BASIC_USER}:{BASIC_PASS}"))) }
@@ -684,10 +697,11 @@ fn build_from_description(apps: &[FlatApp], r: &Flat, e: &Entry, token: &str) ->
     if !e.exp.sample_query.is_empty() { path = format!("{path}?{}", e.exp.sample_query) }
     let mut headers: Vec<(String, String)> = vec![("Host".into(), "h".into())];
     if let Some((f, _)) = guards(apps, r).first() {
+        if matches!(f, FangD::JwtKey) { headers.push(("X-Api-Token".into(), token.to_string())) } else {
         headers.push(("Authorization".into(), match f {
             FangD::Jwt => format!("Bearer {token}"),
             _ => { use base64::Engine; format!("Basic {}", base64::engine::general_purpose::STANDARD.encode(format!("{BASIC_USER}:{BASIC_PASS}"))) }
-        }));
+        })); }
     }
     if let Some(mt) = e.exp.body {
         headers.push(("Content-Type".into(), if mt == "multipart/form-data" { "multipart/form-data; boundary=c15b".into() } else { mt.to_string() }));
@@ -1157,9 +1171,9 @@ pub fn run(ctx: &mut Ctx) {
 
         // ---- C: tags and authentication fangs at root / on a mounted child / local to one handler ----
         let t = |s: &str| FangD::Tag(s.into());
-        let root_fangs: Vec<Vec<FangD>> = vec![vec![], vec![t("t0")], vec![FangD::Jwt], vec![FangD::Basic], vec![t("t0"), FangD::Jwt], vec![FangD::Basic, t("t0")], vec![FangD::BasicArr]];
-        let child_fangs: Vec<Vec<FangD>> = vec![vec![], vec![t("t1")], vec![FangD::Jwt], vec![FangD::Basic], vec![t("t1"), FangD::Jwt], vec![FangD::BasicArr]];
-        let local_fangs: Vec<Vec<FangD>> = vec![vec![], vec![FangD::Jwt], vec![FangD::Basic]];
+        let root_fangs: Vec<Vec<FangD>> = vec![vec![], vec![t("t0")], vec![FangD::Jwt], vec![FangD::Basic], vec![t("t0"), FangD::Jwt], vec![FangD::Basic, t("t0")], vec![FangD::BasicArr], vec![FangD::JwtKey]];
+        let child_fangs: Vec<Vec<FangD>> = vec![vec![], vec![t("t1")], vec![FangD::Jwt], vec![FangD::Basic], vec![t("t1"), FangD::Jwt], vec![FangD::BasicArr], vec![FangD::JwtKey]];
+        let local_fangs: Vec<Vec<FangD>> = vec![vec![], vec![FangD::Jwt], vec![FangD::Basic], vec![FangD::JwtKey]];
         let routes_c = all_routes(2);
         let mut sets_c: Vec<Vec<c01::RouteSpec>> = vec![];
         for r in &routes_c { sets_c.push(vec![spec(r, &["GET", "POST"])]) }
@@ -1219,7 +1233,7 @@ pub fn run(ctx: &mut Ctx) {
         "A single route": format!("every catalogue handler on every route of depth <= {depth_a} it fits (params <= route params), flat and under a first-segment mount; all 31 method subsets on /a and /:p/b"),
         "B route sets": if quick { "all pairs over depth <= 3 x 3 method assignments x all C01 declaration shapes x first and last registration order" } else { "all pairs over depth <= 3 x 5 method assignments x all shapes x all orders; triples over depth <= 2 x 3 assignments x all shapes x 3 orders; all triples over depth <= 3 that reach depth 3 x all shapes, first order" },
         "B handlers": "one catalogue handler per (route, method), rotating deterministically (seeded by the unit number) through the entries that fit (body extractors only on POST/PUT/PATCH)",
-        "C fangs": format!("route sets of size <= 2 over depth <= 2 ({}) x shapes flat/mount1/mount2/nested{} x root fangs {{-, Tag, JWT, Basic, Tag+JWT, Basic+Tag}} x child fangs {{-, Tag, JWT, Basic, Tag+JWT}} ({}) x local fang {{-, JWT, Basic}} ({}); chains that would need both a Bearer and a Basic Authorization header are generated but skipped (counted)", if quick { "pairs: total depth <= 3" } else { "all" }, if quick { "" } else { "/split-mount" }, if quick { "first child" } else { "each child in turn" }, if quick { "first handler" } else { "each handler in turn" }),
+        "C fangs": format!("route sets of size <= 2 over depth <= 2 ({}) x shapes flat/mount1/mount2/nested{} x root fangs {{-, Tag, JWT, Basic, Tag+JWT, Basic+Tag, [Basic;2], JWT-with-custom-token-source (cloned)}} x child fangs {{-, Tag, JWT, Basic, Tag+JWT, [Basic;2], JWT-custom}} ({}) x local fang {{-, JWT, Basic, JWT-custom}} ({}); chains that would need both a Bearer and a Basic Authorization header are generated but skipped (counted)", if quick { "pairs: total depth <= 3" } else { "all" }, if quick { "" } else { "/split-mount" }, if quick { "first child" } else { "each child in turn" }, if quick { "first handler" } else { "each handler in turn" }),
         "C2 deep fangs": if quick { "-" } else { "pairs reaching depth 3 x shapes mount1/mount2/nested x root {-, Tag} x child {Tag, JWT, Basic+Tag} on each child in turn" },
         "requests": "one per documented operation built from the document (path values by documented type, required query params, minimal body of required members, Authorization per the first security requirement); one more without credentials when a requirement is documented; one built from the description for every registered pair the document lacks",
     }));
